@@ -370,6 +370,7 @@ func (c *Ctx) callersByName() (callers map[string]map[string]bool, valueUse map[
 		}
 		return ssaFuncName(fn)
 	}
+	viaGlobal := map[string][]*ssa.Global{}
 	add := func(callee, from string) {
 		if callers[callee] == nil {
 			callers[callee] = map[string]bool{}
@@ -419,6 +420,11 @@ func (c *Ctx) callersByName() (callers map[string]map[string]bool, valueUse map[
 							}
 							break
 						}
+						if g, isGlobal := base.(*ssa.Global); isGlobal && f.Name() == "init" && inRepoGlobal(g) {
+							// put into a package-level table by its initialiser: whoever reads the table may call it
+							viaGlobal[nameOf(fn)] = append(viaGlobal[nameOf(fn)], g)
+							continue
+						}
 						if _, local := base.(*ssa.Alloc); !local {
 							escapes = true
 						}
@@ -438,8 +444,72 @@ func (c *Ctx) callersByName() (callers map[string]map[string]bool, valueUse map[
 			}
 		}
 	}
+	// functions held in a package-level table: the readers of the table stand for their callers, provided the
+	// table is written by its initialiser only and its address goes nowhere
+	if len(viaGlobal) > 0 {
+		readers := map[*ssa.Global]map[string]bool{}
+		tainted := map[*ssa.Global]bool{}
+		for _, f := range c.allFuncs() {
+			for _, b := range f.Blocks {
+				for _, ins := range b.Instrs {
+					for _, op := range ins.Operands(nil) {
+						g, ok := (*op).(*ssa.Global)
+						if !ok {
+							continue
+						}
+						switch x := ins.(type) {
+						case *ssa.UnOp:
+							if x.Op == token.MUL {
+								if readers[g] == nil {
+									readers[g] = map[string]bool{}
+								}
+								readers[g][ssaFuncName(f)] = true
+								continue
+							}
+						case *ssa.IndexAddr:
+							// &g[i]: a read when only loaded from; a write when stored to (outside init)
+							if addrStored(x) && f.Name() != "init" {
+								tainted[g] = true
+							}
+							if f.Name() != "init" {
+								if readers[g] == nil {
+									readers[g] = map[string]bool{}
+								}
+								readers[g][ssaFuncName(f)] = true
+							}
+							continue
+						case *ssa.Store:
+							if x.Addr == ssa.Value(g) && f.Name() == "init" {
+								continue
+							}
+						case *ssa.DebugRef:
+							continue
+						}
+						if f.Name() != "init" {
+							tainted[g] = true
+						}
+					}
+				}
+			}
+		}
+		for fn, gs := range viaGlobal {
+			for _, g := range gs {
+				if tainted[g] || len(readers[g]) == 0 {
+					valueUse[fn] = true
+					continue
+				}
+				for rd := range readers[g] {
+					add(fn, rd)
+				}
+			}
+		}
+	}
 	c.callerCache, c.valueUseCache = callers, valueUse
 	return
+}
+
+func inRepoGlobal(g *ssa.Global) bool {
+	return g.Pkg != nil && (g.Pkg.Pkg.Path() == bclPath || g.Pkg.Pkg.Path() == cmdPath)
 }
 
 // litParent: "F$lit#2" -> "F" (function literals without a role name).
